@@ -128,7 +128,7 @@ def residueFree (dflt : Int) (acts : Acts) (fmt : List String) (shape : List Nat
     -- an offered sub-fiber is only required to vanish if the loop itself created it
     (p.length != d + 1 && before.contains p) || (residueAt dflt (d + 1) out p != some true))
 
-def handleC05 (j : Json) : Except String Verdict := do
+def handleC05Core (j : Json) : Except String Verdict := do
   let d ← fNat j "d"
   let dflt := fIntD j "dflt" 0
   let z ← fTree j "z" (d + 1)
@@ -191,5 +191,19 @@ def handleC05 (j : Json) : Except String Verdict := do
     (if (fmt.drop 1).contains "U" then ["srcU-below-top"] else [])
   pure { agree := agreeZ && agreeY, spec := specContent && specWf && specRes && specY,
          model := treeToJson (d + 1) mz, tags, why }
+
+/-- a case may carry a second phase: the same fiber objects populated once more after both tensors were given another
+    leaf default; it is judged like a fresh case (destination as it was before the second pass, the new default, a
+    body that writes nothing) -/
+def handleC05 (j : Json) : Except String Verdict := do
+  let v1 ← handleC05Core j
+  match j.getObjVal? "phase2" with
+  | .ok p2 =>
+    let j2 := (((j.setObjVal! "dflt" (← field p2 "dflt")).setObjVal! "z" (← field p2 "z")).setObjVal! "acts" (← field p2 "acts")).setObjVal!
+      "impl" (← field p2 "impl")
+    let v2 ← handleC05Core j2
+    pure { v1 with agree := v1.agree && v2.agree, spec := v1.spec && v2.spec, tags := v1.tags ++ ["redefault"],
+                   why := if v1.agree && v1.spec && !(v2.agree && v2.spec) then "second pass after setDefault: " ++ v2.why else v1.why }
+  | _ => pure v1
 
 end FtDriver
